@@ -3,10 +3,10 @@ CONSTANTS
   NoKey = "-"
   DocDels <- MCDocDels
   Authors = {"a", "b", "c", "s"}
-  NewDocs = {3}
+  NewDocs = {2, 3}
   InPlace = FALSE
-  MaxOps = 3
-  MaxActs = 1
+  MaxOps = 2
+  MaxActs = 2
   MaxForks = 1
 INIT Init
 NEXT Next
